@@ -23,10 +23,14 @@ RULE = (
 ASSUMPTIONS = ["output directories exist", "clean backend (no tracked jobs), sources dated in the past"]
 
 
+QUICK_BUDGET = {"cases": 480, "deadline_s": 90, "case_timeout_s": 60, "floors": {"touch_runs": 460, "edges_ordered": 700, "status_rows": 1400, "contents_compared": 2000}}
+THOROUGH_FACTOR = 50  # thorough = the same workload with 50x the cases (floors scale along)
+
+
 def budget(tier):
-    if tier == "thorough":
-        return {"cases": 5000, "deadline_s": 700, "case_timeout_s": 120, "floors": {"touch_runs": 4900, "edges_ordered": 8000, "status_rows": 15000, "contents_compared": 20000}}
-    return {"cases": 480, "deadline_s": 90, "case_timeout_s": 60, "floors": {"touch_runs": 460, "edges_ordered": 700, "status_rows": 1400, "contents_compared": 2000}}
+    from ..core import scaled_budget
+
+    return scaled_budget(QUICK_BUDGET, tier, THOROUGH_FACTOR, noscale=())
 
 
 def gen_case(rng, idx, tier):
